@@ -46,7 +46,10 @@ func Relay(name string, tags map[string]bool) *vtx.Profile {
 					E("perm", "c1", 0, "A"), E("perm", "c1", 0, "B"), E("perm", "c1", 0, "A", "B"), E("perm", "c1", 0, "V6"),
 					// mixed address families in one request, either order: refused as a whole whatever the allocation's family
 					E("perm", "c1", 0, "A", "V6"), E("perm", "c1", 0, "V6", "A"),
-					E("chan", "c1", N1, "A"), E("chan", "c1", N1, "B"), E("chan", "c1", N2, "V6"), E("chan", "c1", N2, "A2"))
+					E("chan", "c1", N1, "A"), E("chan", "c1", N1, "B"), E("chan", "c1", N2, "V6"), E("chan", "c1", N2, "A2"),
+					// A's IPv4 address presented in the IPv6 form of the attribute (::ffff:10.1.0.1): an IPv4 peer all the same -
+					// the same permission / binding on an IPv4 allocation, refused (443) on an IPv6 one
+					E("perm", "c1", 0, "A"+vtx.Mapped6), E("chan", "c1", N1, "A"+vtx.Mapped6))
 			}
 			if m.Allocs["c2"] == nil {
 				e = append(e, E("alloc", "c2", 0))
